@@ -193,8 +193,45 @@ func runC09(c *Ctx, r *Rec) {
 									isParam = true
 								}
 							}
+							// a local with several definitions, every one of them an element of a slice of the
+							// right type (var next = right[j]; if ... { next = left[i] })
+							allLoads, ndefs := true, 0
+							ast.Inspect(fd.Body, func(y ast.Node) bool {
+								lhs, rhs, ok := multiDef(y)
+								if !ok {
+									return true
+								}
+								var rr []ast.Expr
+								if as2, isAs := y.(*ast.AssignStmt); isAs {
+									rr = as2.Rhs
+								} else if vs, isVs := y.(*ast.ValueSpec); isVs {
+									rr = vs.Values
+								}
+								_ = rhs
+								for li2, l2 := range lhs {
+									if identObj(info, l2) != info.Uses[rix] {
+										continue
+									}
+									ndefs++
+									if len(rr) != len(lhs) {
+										allLoads = false
+										continue
+									}
+									ld, isLoad := ast.Unparen(rr[li2]).(*ast.IndexExpr)
+									if !isLoad {
+										allLoads = false
+										continue
+									}
+									if rt, ok := info.Types[ld.X].Type.Underlying().(*types.Slice); !ok || !types.Identical(rt.Elem(), st.Elem()) {
+										allLoads = false
+									}
+								}
+								return true
+							})
 							if isParam {
 								bad = "skip: the stored element is the parameter " + rix.Name
+							} else if allLoads && ndefs > 0 {
+								bad = ""
 							} else {
 								bad = "the stored element is " + exprStr(as.Rhs[i]) + ", a variable that was not read from a slice (a zero or invented value)"
 							}
@@ -639,6 +676,19 @@ func checkMergeStep(c *Ctx, r *Rec, info *types.Info, srt *types.Named, fd *ast.
 	}
 	if loop == nil || len(params) != 3 {
 		r.skip(rule, construct, c.pos(fd.Pos()), "the merge helper is not `declarations; for mergedIndex < mergedLength { ... }`")
+		return
+	}
+	// a merge that copies the rest of a run inside the loop and returns from there is another
+	// design: "one step per round" is not what it does in those rounds
+	leavesFromInside := false
+	inspectNoLit(loop.Body, func(x ast.Node) bool {
+		if _, ok := x.(*ast.ReturnStmt); ok {
+			leavesFromInside = true
+		}
+		return true
+	})
+	if leavesFromInside {
+		r.skip(rule, construct, c.pos(fd.Pos()), "the merge loop is left by a return from inside the loop (the rest of a run is copied there): another design, the step rule is not bound to it")
 		return
 	}
 	// prefix: indices start at 0, lengths are len() of the parameters
@@ -1149,6 +1199,35 @@ func checkSortDriver(c *Ctx, r *Rec, info *types.Info, fd *ast.FuncDecl, merge *
 				}
 			}
 		}
+		// statements of the pass that follow the exchange and mention neither array (the steps of
+		// the control variables: width *= 2; unsorted = width < length) change nothing about it
+		for len(passStmts) > 1 {
+			last := passStmts[len(passStmts)-1]
+			if as, ok := last.(*ast.AssignStmt); ok && isSwap(as) {
+				break
+			}
+			mentionsArray := false
+			ast.Inspect(last, func(x ast.Node) bool {
+				if id, ok := x.(*ast.Ident); ok && (id.Name == src || id.Name == dst) {
+					mentionsArray = true
+				}
+				if _, isCall := x.(*ast.CallExpr); isCall {
+					if cl := x.(*ast.CallExpr); !info.Types[cl.Fun].IsType() {
+						mentionsArray = true // a call may do anything
+					}
+				}
+				return !mentionsArray
+			})
+			switch last.(type) {
+			case *ast.AssignStmt, *ast.IncDecStmt:
+			default:
+				mentionsArray = true
+			}
+			if mentionsArray {
+				break
+			}
+			passStmts = passStmts[:len(passStmts)-1]
+		}
 		if n := len(passStmts); n > 0 {
 			if as, ok := passStmts[n-1].(*ast.AssignStmt); ok && isSwap(as) {
 				a, b := exprStr(as.Lhs[0]), exprStr(as.Lhs[1])
@@ -1180,6 +1259,19 @@ func checkSortDriver(c *Ctx, r *Rec, info *types.Info, fd *ast.FuncDecl, merge *
 		same := func(a, b string) bool { return a == b || alias[a] == b || alias[b] == a }
 		primed, settled, copiesBefore, copiesAfter := false, false, 0, 0
 		for _, st := range fd.Body.List {
+			// a copy made by appending the whole input to an empty array, or by slices.Clone
+			if lhs, rhs, ok := multiDefStmt(st); ok && len(lhs) == 1 && st.Pos() < outer.Pos() && same(exprStr(lhs[0]), src) {
+				if cl, ok := ast.Unparen(rhs).(*ast.CallExpr); ok {
+					if isBuiltinCall(info, cl, "append") && cl.Ellipsis.IsValid() && len(cl.Args) == 2 && same(exprStr(cl.Args[1]), dst) {
+						copiesBefore++
+						primed = true
+					}
+					if cf := calleeOf(info, cl); cf != nil && cf.Pkg() != nil && cf.Pkg().Path() == "slices" && cf.Name() == "Clone" && len(cl.Args) == 1 && same(exprStr(cl.Args[0]), dst) {
+						copiesBefore++
+						primed = true
+					}
+				}
+			}
 			es, ok := st.(*ast.ExprStmt)
 			if !ok {
 				continue
@@ -1338,7 +1430,17 @@ func checkReverse(c *Ctx, r *Rec, info *types.Info, fd *ast.FuncDecl) {
 	}
 	ixP := ast.Unparen(swap.Lhs[0]).(*ast.IndexExpr)
 	ixQ := ast.Unparen(swap.Lhs[1]).(*ast.IndexExpr)
-	P, Q := env2.eval(preSt, ixP.Index).Lin, env2.eval(preSt, ixQ.Index).Lin
+	// a position may be spelled out as a local of the body first (var front = ordinal - 1)
+	spelled := func(e ast.Expr) ast.Expr {
+		if id, ok := ast.Unparen(e).(*ast.Ident); ok {
+			if init := initOfIn(info, fs.Body, id); init != nil {
+				return init
+			}
+		}
+		return e
+	}
+	pIdx, qIdx := spelled(ixP.Index), spelled(ixQ.Index)
+	P, Q := env2.eval(preSt, pIdx).Lin, env2.eval(preSt, qIdx).Lin
 	condV := env2.eval(preSt, fs.Cond)
 	iter := symRun(env2, &ast.BlockStmt{List: append(append([]ast.Stmt{}, fs.Body.List...), fs.Post)})
 	if P == nil || Q == nil || len(iter) != 1 || len(env2.problems) > 0 {
@@ -1346,7 +1448,7 @@ func checkReverse(c *Ctx, r *Rec, info *types.Info, fd *ast.FuncDecl) {
 		return
 	}
 	post := &symState{vars: iter[0].State}
-	P2, Q2 := env2.eval(post, ixP.Index).Lin, env2.eval(post, ixQ.Index).Lin
+	P2, Q2 := env2.eval(post, pIdx).Lin, env2.eval(post, qIdx).Lin
 	atInit := func(l *Lin) *Lin {
 		out := linConst(l.K)
 		for sname, coef := range l.C {
@@ -1403,6 +1505,11 @@ func checkReverse(c *Ctx, r *Rec, info *types.Info, fd *ast.FuncDecl) {
 		inv := append(Cube{}, env2.base...)
 		for _, cb := range dnf(eq(lowP.add(highQ), n.plus(-1))) {
 			inv = append(inv, cb...)
+		}
+		if !badHalf {
+			// half = len/2 rounded down: 2*half <= len <= 2*half + 1
+			h := sym("half")
+			inv = append(inv, h.scale(2).sub(n), n.sub(h.scale(2).plus(1)))
 		}
 		if s1, d1 := satF(inv, and(condV.B, fNotOf(lt(lowP, highQ)))); s1 || !d1 {
 			viol = append(viol, "the loop can run although the lower position has reached the upper one: a pair is swapped back")
